@@ -348,6 +348,8 @@ class Interp:
             return ('f64const', m.group(1))
         if o == 'const ()':
             return []
+        if re.fullmatch(r'const ".*"', o):
+            return ('str-const', o)
         if re.fullmatch(r'const .*::promoted\[\d+\]', o):
             return ('promoted-constant', o)
         if o == 'const true':
@@ -460,6 +462,15 @@ class Interp:
             return [(pc, T.const(0))]
         if re.fullmatch(r'<\w+ as (num_traits::)?One>::one', c):
             return [(pc, T.const(1))]
+        if re.fullmatch(r'<\w+ as (num_traits::)?Zero>::is_zero', c):
+            return [(pc, self.cmp('Eq', d[0], T.const(0)))]
+        m = re.fullmatch(r'<\w+ as (?:num_traits::)?Float>::(max|min|abs)', c)
+        if m and not isinstance(T, BVTheory):
+            # over the reals / integers (no NaN): the mathematical max, min, |.|
+            if m.group(1) == 'abs':
+                return [(pc, z3.If(self.cmp('Ge', d[0], T.const(0)), d[0], T.neg(d[0])))]
+            ge = self.cmp('Ge', d[0], d[1])
+            return [(pc, z3.If(ge, d[0], d[1]) if m.group(1) == 'max' else z3.If(ge, d[1], d[0]))]
         if re.fullmatch(r'<&?[\w:]+<[\w:<>, ]+> as PartialEq>::(eq|ne)', c):
             eq = self.struct_eq(d[0], d[1])
             if c.endswith('ne'):
@@ -578,6 +589,22 @@ class Interp:
                 it.pos += 1
                 return [(pc, Enum('Some', [Ref(lambda it=it, k=k: it.items[k], lambda v, it=it, k=k: it.items.__setitem__(k, v))]))]
             return [(pc, Enum('None'))]
+        if re.fullmatch(r'<.* as Iterator>::for_each::<.*>', c):
+            cur = pc
+            for pc0, items, _ in self.drain(d[0], pc, depth) if isinstance(d[0], Adaptor) else [(pc, [Ref(lambda x=x: x) for x in d[0].items], None)]:
+                for x in items:
+                    outs = self.call_closure(d[1], [deref(x)], cur, depth)
+                    if len(outs) != 1:
+                        raise Untranslatable('for_each closure forked (captured state would be shared between paths)')
+                    cur = outs[0][0]
+            return [(cur, [])]
+        if re.fullmatch(r'Vec::<.*>::new', c):
+            return [(pc, [])]
+        if re.fullmatch(r'Option::<.*>::expect', c):
+            e = d[0]
+            if isinstance(e, Enum) and e.variant == 'Some':
+                return [(pc, e.fields[0])]
+            raise Untranslatable('expect of ' + repr(e))
         m = re.fullmatch(r'<.* as Iterator>::(map|flat_map)::<.*>', c)
         if m:
             return [(pc, Adaptor(m.group(1), d[0], d[1]))]
@@ -626,6 +653,8 @@ class Interp:
             parts = [self.struct_eq(x, y) for x, y in zip(a, b)]
         elif z3.is_expr(a) or z3.is_expr(b) or isinstance(a, (int, bool)) and isinstance(b, (int, bool)):
             return a == b
+        elif isinstance(a, (tuple, str)) and isinstance(b, (tuple, str)):
+            return a == b          # opaque concrete tokens: identity is decided concretely
         else:
             raise Untranslatable('structural eq on unmodelled values %r / %r' % (type(a).__name__, type(b).__name__))
         if any(p is False for p in parts):
